@@ -34,7 +34,15 @@ RULE = ('expose: every bit depth 1..32 x exposure classes (sorted ramp crossing 
         'uint8..uint32 / bool containers using the whole container range (block sums leave the container), four memory '
         'layouts; frames returned by expose (8..32-bit, single and stacks) fed to bindown / tile; Bayer: even shapes 2..32 '
         '(thorough ..128, square and not), both layouts, float64 / float32 / uint8 / uint16 / int32 mosaics, four memory layouts, '
-        'random gains and saturation levels; non-trivial = array has >= 2 samples; distinct = distinct descriptor')
+        'random gains and saturation levels; ARGUMENT FORMS (class E), one argument at a time off its canonical form: bits as numpy '
+        'integer scalars of every width / 0-d array, the six Detector scalars as python int / numpy float64 / float32 / int64 / int32 / '
+        'uint16 / 0-d arrays, prnu as flat / nested list / tuple / float32 / Fortran / strided / integer / boolean / scalar, dcnu '
+        'likewise where accepted, frames keyword / positional / omitted as python and numpy ints, Detector built positionally / by '
+        're-ordered keywords / with the optional maps omitted after a detector that had them, bindown / tile factor as numpy scalars / '
+        'tuple / list / ndarray / sequences of numpy ints, mode strings in every accepted spelling and letter case, omitted mode / '
+        'scaling after an explicit other value, keyword calls; cfa in any letter case and omitted after the other layout, keyword / '
+        'positional Bayer calls, white-balance gains and saturation levels as int / numpy scalars / list / tuple / ndarray; '
+        'non-trivial = array has >= 2 samples; distinct = distinct descriptor')
 ASSUMPTIONS = ['noise-free reference: floor(clip(min(s*t*prnu + dark*t*dcnu*prnu + bias, fwc)/gain, 0, 2^bits-1)); cases with a prnu '
                'map use zero dark current so that it does not matter whether prnu also scales the dark signal',
                'DN within 1e-12 relative of an integer boundary may round either way (x*(1/gain) vs x/gain); when the aerial image '
@@ -44,11 +52,16 @@ ASSUMPTIONS = ['noise-free reference: floor(clip(min(s*t*prnu + dark*t*dcnu*prnu
                'not sums modulo the container',
                'the backend shim swap only replaces random.poisson (returns its mean) and random.normal (returns loc)',
                'aerial images are 2-D and non-negative; dcnu/prnu maps have the image shape (prnu also flat 1-D as the code accepts)',
-               'white balance: only "each colour is scaled by one constant, safe mode applies one common limiter" is demanded']
+               'white balance: only "each colour is scaled by one constant, safe mode applies one common limiter" is demanded',
+               'argument forms: the tables in the module (SCALAR_FORMS, BITS_FORMS, FRAME_FORMS, PRNU_FORMS, DCNU_FORMS, FACTOR_FORMS, '
+               'BIN_MODES, TILE_SCALINGS, CFA_ANYCASE) list the forms the current tree accepts and treats as the same input; forms for '
+               'which it raises (dcnu as a list, float / 0-d factors, upper-case tile scaling, upper-case cfa in decomposite_bayer / '
+               'demosaic_deinterlace / safe wb_prescale, float or bool frames) are outside the domain']
 REQUIRED = ['expose.contract', 'expose.noise-free-model', 'expose.monotonic', 'bindown.block-sum', 'bindown.contract',
             'tile.reference', 'tile.contract', 'adjoint.pairs', 'bayer.decomposite', 'bayer.recomposite', 'bayer.composite',
             'bayer.roundtrip', 'bayer.malvar', 'bayer.deinterlace', 'wb.prescale', 'wb.postscale',
-            'expose.history', 'expose.repeat', 'expose.saturated-real-rng', 'expose->bindown', 'bindown.integer-containers']
+            'expose.history', 'expose.repeat', 'expose.saturated-real-rng', 'expose->bindown', 'bindown.integer-containers',
+            'forms.expose', 'forms.bindown', 'forms.tile', 'forms.bayer']
 
 CTX = None
 ADC_KEY = 'C16/expose/adc-ceiling-2^bits'
@@ -168,10 +181,24 @@ def _wrapped(bits):
     return (2 ** bits) % (2 ** cbits)
 
 
+def bits_form(b):
+    """'' for a python int; 'numpy-int' for a numpy integer scalar / 0-d array that can hold 2^bits;
+    'numpy-int-narrower-than-2^bits' when it cannot (2 ** bits is then evaluated in that type); None for anything else."""
+    if isinstance(b, (bool, np.bool_)):
+        return None
+    if isinstance(b, int):
+        return ''
+    dt = getattr(b, 'dtype', None)
+    if dt is not None and dt.kind in 'iu' and np.ndim(b) == 0:
+        return 'numpy-int' if 2 ** int(b) <= int(np.iinfo(dt).max) else 'numpy-int-narrower-than-2^bits'
+    return None
+
+
 def post_expose(token, args, kwargs, result):
     self = args[0]
     img = args[1] if len(args) > 1 else kwargs['aerial_img']
     frames = args[2] if len(args) > 2 else kwargs.get('frames', 1)
+    frames = int(frames) if np.ndim(frames) == 0 and not isinstance(frames, (bool, float)) else frames
     bits = int(self.bits)
     desc = {'fn': 'expose', 'bits': bits, 'frames': frames, 'shape': list(np.shape(img)), 'lut': self.lut is not None}
     CTX.observe('expose.contract')
@@ -188,7 +215,12 @@ def post_expose(token, args, kwargs, result):
     mn = int(result.min()) if result.size else 0
     desc['precision'] = 32 if _is32() else 64
     desc['img_dtype'] = str(getattr(img, 'dtype', type(img).__name__))
-    if mx > 2 ** bits - 1 or mn < 0:
+    bf = bits_form(self.bits)
+    if (mx > 2 ** bits - 1 or mn < 0) and bf:
+        # class E: the bit depth was handed over as a numpy integer; one key per form class
+        CTX.violation(f'C16/expose/form:bits={bf}', f'DN outside [0, 2^bits-1] (min {mn}, max {mx}) with bits given as {type(self.bits).__name__}'
+                      f'({bits})', desc)
+    elif mx > 2 ** bits - 1 or mn < 0:
         if mx == 2 ** bits and mn >= 0:
             _emit(ADC_KEY, ADC_WHAT, desc, img, max_dn=mx)
         else:
@@ -313,6 +345,7 @@ def _even2d(img):
 
 def _cfa(args, kwargs, pos):
     c = args[pos] if len(args) > pos else kwargs.get('cfa', 'rggb')
+    c = c.lower() if isinstance(c, str) else c          # the routines that get this far accept any letter case today
     return c if c in ('rggb', 'bggr') else None
 
 
@@ -336,6 +369,7 @@ def post_recomposite(token, args, kwargs, result):
     a = dict(zip(names, args))
     a.update(kwargs)
     cfa = a.get('cfa', 'rggb')
+    cfa = cfa.lower() if isinstance(cfa, str) else cfa
     if cfa not in ('rggb', 'bggr'):
         return
     r = a['r']
@@ -356,6 +390,7 @@ def post_composite(token, args, kwargs, result):
     a = dict(zip(names, args))
     a.update(kwargs)
     cfa = a.get('cfa', 'rggb')
+    cfa = cfa.lower() if isinstance(cfa, str) else cfa
     if cfa not in ('rggb', 'bggr') or not _even2d(a['r']):
         return
     CTX.observe('bayer.composite')
@@ -427,6 +462,7 @@ def post_wb_prescale(before, args, kwargs, result):
     a = dict(zip(names, args))
     a.update(kwargs)
     cfa = a.get('cfa', 'rggb')
+    cfa = cfa.lower() if isinstance(cfa, str) else cfa
     after = a['mosaic']
     if cfa not in ('rggb', 'bggr') or not _even2d(after):
         return
@@ -1190,6 +1226,415 @@ def bayer_workload(ctx):
                 bayer.wb_postscale(c, *g[:3], safe=True, saturation=sat if k % 2 else [sat, sat * 0.9, sat * 1.1])
 
 
+# ------------------------------------------------------------------------------------------ argument forms (class E)
+# Forms the sensor model accepts today and treats as the same input.  Established on /repo@faa8443 (numpy 2.5) by running one
+# noise-free exposure / one 4x6 binning / one 4x6 mosaic per form and comparing with the canonical form (python int bits,
+# python float scalars, float64 C-ordered maps, keyword `frames`, python int / tuple factors, lower-case strings):
+#   Detector scalars (dark_current, read_noise, bias, fwc, conversion_gain, exposure_time): python int / float, numpy.float64 /
+#     float32 / int64 / int32 / uint16 scalars, 0-d float and int arrays -> identical DN;
+#   bits: numpy.int64 / intp / uint64 / uint32 and 0-d int64 -> identical; a numpy integer type that cannot hold 2^bits
+#     (int8 / uint8 / int16 / uint16, int32 for 32 bits) makes `2 ** self.bits` overflow -> wrong ADC ceiling: accepted, not
+#     documented as unsupported, wrong -> a finding of the current tree (ledger key C16/expose/form:bits=numpy-int-narrower-than-2^bits);
+#   frames: keyword or positional, python int / numpy.int64 / int32 / uint8 / 0-d int (python float, bool raise: out of domain);
+#   prnu: 2-D map, flat 1-D, nested / flat lists, tuple of tuples, float32, Fortran order, integer map, python / numpy scalar;
+#   dcnu: 2-D map, float32, Fortran order, integer map, python / numpy scalar (flat and list forms raise: out of domain);
+#   bindown / tile factor: python int, numpy.int64 / int32 / intp scalars, tuple, list, int64 / int32 ndarray, sequences of
+#     numpy integers (0-d arrays and floats raise; 8 / 16-bit integer types are out of domain as ruled for indices);
+#   bindown mode: avg / average / mean / sum in any letter case, omitted = 'avg'; tile scaling: lower case only (upper case
+#     raises ValueError), omitted = 'sum'; positional or keyword;
+#   cfa: any letter case for recomposite_bayer, composite_bayer, demosaic_malvar, wb_prescale(safe=False); lower case only for
+#     decomposite_bayer, demosaic_deinterlace, wb_prescale(safe=True) (upper case raises UnboundLocalError there); omitted = 'rggb'.
+SCALAR_FORMS = {
+    'int': lambda v: int(v), 'np.float64': lambda v: np.float64(v), 'np.float32': lambda v: np.float32(v), 'np.int64': lambda v: np.int64(v),
+    'np.int32': lambda v: np.int32(v), 'np.uint16': lambda v: np.uint16(v), '0d-float': lambda v: np.array(float(v)), '0d-int': lambda v: np.array(int(v)),
+}
+BITS_FORMS = {
+    'np.int64': np.int64, 'np.intp': np.intp, 'np.uint64': np.uint64, 'np.uint32': np.uint32, 'np.int32': np.int32, 'np.int16': np.int16,
+    'np.uint16': np.uint16, 'np.uint8': np.uint8, 'np.int8': np.int8, '0d-int64': lambda v: np.array(v, dtype=np.int64),
+}
+FRAME_FORMS = {'np.int64': np.int64, 'np.int32': np.int32, 'np.uint8': np.uint8, '0d-int': lambda v: np.array(v)}
+PRNU_FORMS = {
+    'flat-1d': lambda a: a.ravel().copy(), 'nested-list': lambda a: a.tolist(), 'flat-list': lambda a: a.ravel().tolist(),
+    'tuple-of-tuples': lambda a: tuple(map(tuple, a.tolist())), 'float32': lambda a: a.astype(np.float32), 'fortran': np.asfortranarray,
+    'strided': lambda a: as_layout(a, 'S'),
+}
+DCNU_FORMS = {'float32': lambda a: a.astype(np.float32), 'fortran': np.asfortranarray, 'strided': lambda a: as_layout(a, 'S')}
+DET_ARGS = ['dark_current', 'read_noise', 'bias', 'fwc', 'conversion_gain', 'bits', 'exposure_time']
+
+
+def forms_expose(ctx):
+    from prysm import detector
+    kinds = ['bits'] * 3 + ['dark_current', 'bias', 'fwc', 'conversion_gain', 'exposure_time', 'read_noise', 'prnu', 'dcnu', 'frames', 'construct',
+                            'int-maps', 'scalar-maps']
+    n_cases = ctx.pick(2400, 60000)
+    for it in range(n_cases):
+        if not ctx.mine(it):
+            continue
+        rng = np.random.default_rng([ctx.seed, 16500, it])
+        which = kinds[it % len(kinds)]
+        bits = 1 + (it // len(kinds)) % 32
+        cap = 2 ** bits - 1
+        # integral parameter values, so that every scalar form (also the integer ones) denotes the same number
+        gain = float([1, 2, 3, 5][int(rng.integers(4))])
+        t = float([1, 2, 3][int(rng.integers(3))])
+        sat_e = cap * gain
+        bias = float(int(rng.integers(0, max(1, min(40, int(0.2 * sat_e))) + 1)))
+        above = rng.random() < 0.5
+        fwc = float(int(sat_e * rng.uniform(2, 20)) + 7 + bias) if above else float(max(2, int(bias + max(sat_e - bias, gain) * rng.uniform(0.3, 0.9))))
+        dark = float(int(rng.integers(0, 3)))
+        shape = [(3, 4), (2, 5), (4, 4), (5, 3)][int(rng.integers(4))]
+        n = shape[0] * shape[1]
+        s_sat = max(min(fwc, sat_e) - bias, gain) / t
+        img = np.sort(rng.uniform(0, 1.0, n)).reshape(shape) * 2.5 * s_sat
+        img.flat[0], img.flat[-1] = 0.0, max(3.0 * s_sat, ((cap + 1) * gain - bias) / t * 1.5)
+        prnu = dcnu = None
+        frames = 1
+        p = dict(dark_current=dark, read_noise=0.0, bias=bias, fwc=fwc, conversion_gain=gain, bits=bits, exposure_time=t)
+        args = dict(p)
+        low = False
+        fcls = flabel = None
+        frames_arg, frames_pos, construct = 1, False, 'keywords'
+        if which == 'bits':
+            flabel = list(BITS_FORMS)[(it // len(kinds)) % len(BITS_FORMS) if it % 3 else (it // 7) % len(BITS_FORMS)]
+            try:
+                args['bits'] = BITS_FORMS[flabel](bits)
+            except OverflowError:
+                ctx.skip('forms: bit depth does not fit the integer type of the form')
+                continue
+            fcls = bits_form(args['bits'])
+        elif which in ('dark_current', 'read_noise', 'bias', 'fwc', 'conversion_gain', 'exposure_time'):
+            flabel = list(SCALAR_FORMS)[(it // len(kinds)) % len(SCALAR_FORMS)]
+            v = p[which]
+            if flabel == 'np.uint16' and not (0 <= v < 65536) or flabel == 'np.int32' and not abs(v) < 2 ** 31 or \
+                    flabel == 'np.float32' and float(np.float32(v)) != v:
+                flabel = 'np.float64'
+            args[which] = SCALAR_FORMS[flabel](v)
+            low = flabel == 'np.float32'
+            fcls = 'integer' if flabel in ('int', 'np.int64', 'np.int32', 'np.uint16', '0d-int') else flabel
+        elif which == 'prnu':
+            prnu = rng.uniform(0.8, 1.2, shape)
+            dark = p['dark_current'] = args['dark_current'] = 0.0
+            flabel = list(PRNU_FORMS)[(it // len(kinds)) % len(PRNU_FORMS)]
+            args['prnu'] = PRNU_FORMS[flabel](prnu)
+            low = flabel == 'float32'
+            prnu = prnu.astype(np.float32).astype(float) if low else prnu
+            fcls = 'python-sequence' if flabel in ('nested-list', 'flat-list', 'tuple-of-tuples') else flabel
+        elif which == 'dcnu':
+            dcnu = rng.uniform(0.5, 1.5, shape)
+            dark = p['dark_current'] = args['dark_current'] = float(int(rng.integers(1, 4)))
+            flabel = list(DCNU_FORMS)[(it // len(kinds)) % len(DCNU_FORMS)]
+            args['dcnu'] = DCNU_FORMS[flabel](dcnu)
+            low = flabel == 'float32'
+            dcnu = dcnu.astype(np.float32).astype(float) if low else dcnu
+            fcls = flabel
+        elif which == 'int-maps':
+            # integer-typed non-uniformity maps (values 1 and 2): the same maps as their float copies
+            m = rng.integers(1, 3, shape)
+            dt = ['int64', 'int32', 'uint8', 'bool'][(it // len(kinds)) % 4]
+            if (it // len(kinds)) % 2:
+                prnu = m.astype(float) if dt != 'bool' else np.ones(shape)
+                dark = p['dark_current'] = args['dark_current'] = 0.0
+                args['prnu'] = m.astype(dt) if dt != 'bool' else np.ones(shape, dtype=bool)
+                flabel, which_arg = dt, 'prnu'
+            else:
+                dcnu = m.astype(float) if dt != 'bool' else np.ones(shape)
+                args['dcnu'] = m.astype(dt) if dt != 'bool' else np.ones(shape, dtype=bool)
+                flabel, which_arg = dt, 'dcnu'
+            fcls = 'integer-map' if dt != 'bool' else 'boolean-map'
+        elif which == 'scalar-maps':
+            v = [1, 1.0, np.float64(1.0), 2, np.int64(2), 0.5][(it // len(kinds)) % 6]
+            if (it // len(kinds)) % 2:
+                prnu = np.full(shape, float(v))
+                dark = p['dark_current'] = args['dark_current'] = 0.0
+                args['prnu'], which_arg = v, 'prnu'
+            else:
+                dcnu = np.full(shape, float(v))
+                args['dcnu'], which_arg = v, 'dcnu'
+            flabel = type(v).__name__
+            fcls = 'scalar'
+        elif which == 'frames':
+            frames = int(rng.integers(1, 4))
+            flabel = ['int', 'np.int64', 'np.int32', 'np.uint8', '0d-int'][(it // len(kinds)) % 5]
+            frames_arg = frames if flabel == 'int' else FRAME_FORMS[flabel](frames)
+            frames_pos = (it // (5 * len(kinds))) % 2 == 0
+            flabel = flabel + ('/positional' if frames_pos else '/keyword')
+            fcls = ('numpy-int' if not flabel.startswith('int') else 'int') + ('/positional' if frames_pos else '/keyword')
+        elif which == 'construct':
+            construct = ['positional', 'keywords-reordered', 'optional-omitted-after-explicit', 'optional-explicit-None'][(it // len(kinds)) % 4]
+            flabel = fcls = construct
+        if which in ('int-maps', 'scalar-maps'):
+            which = which_arg
+        desc = {'wl': 'forms-expose', 'argument': which, 'form': flabel, 'bits': bits, 'gain': gain, 'bias': bias, 'fwc': fwc, 't': t, 'dark': dark,
+                'shape': list(shape), 'frames': frames, 'class': f'forms:expose:{which}={flabel}'}
+        ctx.case(desc)
+        key = f'C16/expose/form:{which}={fcls}'
+        lo, hi, v_, x_ = ref.expose_ref(img, t, dark, bias, fwc, gain, bits, prnu=prnu, dcnu=dcnu, delta=LOW_DELTA if low else 1e-12)
+        out = None
+        with noise_free(), ctx.guard(key, desc):
+            if construct == 'positional':
+                det = detector.Detector(args['dark_current'], args['read_noise'], args['bias'], args['fwc'], args['conversion_gain'], args['bits'],
+                                        args['exposure_time'], args.get('prnu'), args.get('dcnu'), None)
+            elif construct == 'keywords-reordered':
+                det = detector.Detector(lut=None, exposure_time=t, bits=bits, conversion_gain=gain, fwc=fwc, bias=bias, read_noise=0.0, dark_current=dark)
+            elif construct == 'optional-omitted-after-explicit':
+                # a detector WITH maps and a LUT is built and used first; the next one omits them and must be plain
+                d0 = detector.Detector(dark_current=dark + 1, read_noise=0.0, bias=bias, fwc=fwc, conversion_gain=gain, bits=min(bits, 10), exposure_time=t,
+                                       prnu=np.full(shape, 0.5), dcnu=np.full(shape, 3.0), lut=np.arange(2 ** min(bits, 10), dtype=np.uint32)[::-1].copy())
+                with quiet():
+                    d0.expose(img)
+                det = detector.Detector(dark_current=dark, read_noise=0.0, bias=bias, fwc=fwc, conversion_gain=gain, bits=bits, exposure_time=t)
+            elif construct == 'optional-explicit-None':
+                det = detector.Detector(dark_current=dark, read_noise=0.0, bias=bias, fwc=fwc, conversion_gain=gain, bits=bits, exposure_time=t,
+                                        prnu=None, dcnu=None, lut=None)
+            else:
+                det = detector.Detector(**args)
+            if frames_pos:
+                out = det.expose(img, frames_arg)
+            elif which == 'frames':
+                out = det.expose(img, frames=frames_arg)
+            elif it % 2:
+                out = det.expose(img)                      # `frames` omitted == frames=1
+            else:
+                out = det.expose(aerial_img=img, frames=1)
+        if out is None:
+            continue
+        ctx.observe('forms.expose')
+        o = np.asarray(out)
+        want_shape = tuple(shape) if frames == 1 else (frames,) + tuple(shape)
+        ok = o.shape == want_shape and o.dtype == np.dtype(ref.container(bits))
+        if ok:
+            oi = o.reshape((frames,) + tuple(shape)).astype(np.int64)
+            ok = bool(((oi >= lo[None]) & (oi <= hi[None])).all())
+        if not ok:
+            # the same case in the canonical forms: when that fails too it is not a form effect (the other workloads key it)
+            with quiet(), noise_free():
+                d2 = detector.Detector(dark_current=dark, read_noise=0.0, bias=bias, fwc=fwc, conversion_gain=gain, bits=bits, exposure_time=t,
+                                       prnu=prnu, dcnu=dcnu)
+                try:
+                    c = np.asarray(d2.expose(img, frames=frames)).reshape((frames,) + tuple(shape)).astype(np.int64)
+                    canon_bad = not bool(((c >= lo[None]) & (c <= hi[None])).all())
+                except Exception:  # noqa
+                    canon_bad = True
+            if canon_bad:
+                ctx.event('forms.expose: canonical form fails too (keyed by the expose workload)')
+                continue
+            ctx.violation(key, f'noise-free exposure with {which} given as {flabel} differs from floor(clip(min(s*t+dark+bias, fwc)/gain, 0, 2^bits-1))',
+                          desc, got_dtype=str(o.dtype), got_shape=list(o.shape), got=o.ravel()[-4:], want=hi.ravel()[-4:])
+
+
+FACTOR_FORMS = {
+    'np.int64': lambda f: np.int64(f[0]), 'np.int32': lambda f: np.int32(f[0]), 'np.intp': lambda f: np.intp(f[0]),
+    'tuple': lambda f: tuple(f), 'list': lambda f: list(f), 'ndarray-int64': lambda f: np.array(f, dtype=np.int64),
+    'ndarray-int32': lambda f: np.array(f, dtype=np.int32), 'tuple-of-np.int64': lambda f: tuple(np.int64(v) for v in f),
+    'list-of-mixed-ints': lambda f: [np.int32(v) if i % 2 else int(v) for i, v in enumerate(f)],
+}
+SCALAR_FACTOR_FORMS = ('np.int64', 'np.int32', 'np.intp')
+BIN_MODES = {'avg': ['avg', 'average', 'mean', 'AVG', 'Average', 'MEAN', 'Avg'], 'sum': ['sum', 'SUM', 'Sum']}
+TILE_SCALINGS = {'avg': ['avg', 'average', 'mean'], 'sum': ['sum']}
+
+
+def forms_bin(ctx):
+    from prysm import detector
+    n_cases = ctx.pick(1200, 40000)
+    flabels = list(FACTOR_FORMS)
+    for it in range(n_cases):
+        if not ctx.mine(it):
+            continue
+        rng = np.random.default_rng([ctx.seed, 16600, it])
+        nd = 1 + it % 3
+        which = ['factor', 'factor', 'mode', 'call'][(it // 3) % 4]
+        flabel = flabels[(it // 12) % len(flabels)]
+        scalar = flabel in SCALAR_FACTOR_FORMS
+        f = tuple([int(rng.integers(1, 4))] * nd) if scalar else tuple(int(v) for v in rng.integers(1, 4, nd))
+        o = tuple(int(v) for v in rng.integers(1, 5, nd))
+        shape = tuple(a * b for a, b in zip(o, f))
+        x = rng.integers(-50, 200, shape).astype(float)
+        y = rng.integers(-20, 50, o).astype(float)
+        nblk = int(np.prod(f))
+        farg = FACTOR_FORMS[flabel](f) if which == 'factor' else (f[0] if len(set(f)) == 1 and it % 2 else f)
+        red = 'sum' if it % 2 else 'avg'
+        mlabel = BIN_MODES[red][(it // 24) % len(BIN_MODES[red])] if which == 'mode' else red
+        slabel = TILE_SCALINGS[red][(it // 24) % len(TILE_SCALINGS[red])] if which == 'mode' else red
+        call = ['positional', 'keywords', 'omitted-default'][(it // 24) % 3] if which == 'call' else 'positional'
+        fcls = {'factor': flabel, 'mode': 'letter-case/synonym', 'call': call}[which]
+        desc = {'wl': 'forms-bin', 'argument': which, 'form': {'factor': flabel, 'mode': [mlabel, slabel], 'call': call}[which], 'out': list(o),
+                'factor': list(f), 'reduce': red, 'class': f'forms:bin:{which}={fcls}'}
+        ctx.case(desc, nontrivial=x.size >= 2)
+        want_b = ref.bin_sum_ref(x, f) / (1 if red == 'sum' else nblk)
+        want_t = ref.tile_ref(y, f) / (nblk if red == 'sum' else 1)
+        kb = f'C16/bindown/form:{which}={fcls}'
+        kt = f'C16/tile/form:{which}={fcls}'
+        with ctx.guard(kb, desc):
+            if call == 'keywords':
+                b = detector.bindown(array=x, factor=farg, mode=mlabel)
+            elif call == 'omitted-default':
+                detector.bindown(x, farg, 'sum')                      # an explicit non-default value first
+                b = detector.bindown(x, farg)                         # documented default: 'avg'
+                want_b = ref.bin_sum_ref(x, f) / nblk
+            else:
+                b = detector.bindown(x, farg, mlabel)
+            ctx.close('forms.bindown', np.asarray(b, dtype=float), want_b, kb, f'bindown with {which} given as {desc["form"]} is not the block '
+                      f'{"sum" if red == "sum" and call != "omitted-default" else "mean"}', desc, rtol=1e-12, atol=1e-9)
+        with ctx.guard(kt, desc):
+            if call == 'keywords':
+                tl = detector.tile(array=y, factor=farg, scaling=slabel)
+            elif call == 'omitted-default':
+                detector.tile(y, farg, 'avg')
+                tl = detector.tile(y, farg)                           # documented default: 'sum'
+                want_t = ref.tile_ref(y, f) / nblk
+            else:
+                tl = detector.tile(y, farg, slabel)
+            ctx.close('forms.tile', np.asarray(tl, dtype=float), want_t, kt, f'tile with {which} given as {desc["form"]} is not the repeated array'
+                      ' (over prod(factor) in sum scaling)', desc, rtol=1e-12, atol=1e-12)
+
+
+CFA_ANYCASE = {'rggb': ['RGGB', 'Rggb', 'rGgB'], 'bggr': ['BGGR', 'Bggr', 'bGGr']}
+
+
+def forms_bayer(ctx):
+    from prysm import bayer
+    n_cases = ctx.pick(600, 20000)
+    for it in range(n_cases):
+        if not ctx.mine(it):
+            continue
+        rng = np.random.default_rng([ctx.seed, 16700, it])
+        cfa = ('rggb', 'bggr')[it % 2]
+        which = ['cfa-case', 'cfa-omitted', 'call', 'gains', 'saturation'][(it // 2) % 5]
+        if which == 'cfa-omitted':
+            cfa = 'rggb'
+        shape = (2 * int(rng.integers(1, 6)), 2 * int(rng.integers(1, 6)))
+        m = rng.uniform(1, 1000, shape)
+        m0 = m.copy()
+        cfa_arg = CFA_ANYCASE[cfa][(it // 10) % 3] if which == 'cfa-case' else cfa
+        desc = {'wl': 'forms-bayer', 'argument': which, 'shape': list(shape), 'cfa': cfa, 'cfa_arg': cfa_arg, 'class': f'forms:bayer:{which}'}
+        ctx.case(desc)
+        planes = [np.array(ref.site(m, cfa, c_)) for c_ in ('r', 'g1', 'g2', 'b')]
+        dense = [rng.uniform(1, 9, shape) for _ in range(4)]
+        g = [float(v) for v in rng.uniform(0.3, 3.0, 4)]
+        key = f'C16/bayer/form:{which}'
+        with ctx.guard(key, desc):
+            ctx.observe('forms.bayer')
+            if which in ('cfa-case', 'cfa-omitted'):
+                kw = {} if which == 'cfa-omitted' else {'cfa': cfa_arg}
+                # an explicit other layout first: a default resolved from module state would now be stale
+                other = 'bggr' if cfa == 'rggb' else 'rggb'
+                bayer.recomposite_bayer(*planes, cfa=other)
+                bayer.demosaic_malvar(m, other)
+                back = bayer.recomposite_bayer(*planes, **kw)
+                ctx.equal('forms.bayer', back, m0, key + '/recomposite_bayer', f'recomposite_bayer with cfa {cfa_arg if kw else "omitted"} does not put '
+                          'the planes at their native sites', desc)
+                comp = bayer.composite_bayer(*dense, **kw)
+                wantc = np.empty(shape)
+                for c_, dn in zip(('r', 'g1', 'g2', 'b'), dense):
+                    r0, c0 = ref.SITES[cfa][c_]
+                    wantc[r0::2, c0::2] = dn[r0::2, c0::2]
+                ctx.equal('forms.bayer', comp, wantc, key + '/composite_bayer', 'composite_bayer does not take each colour from its plane at the '
+                          'native site', desc)
+                rgb = bayer.demosaic_malvar(m, **kw)                 # the contract decides (native sites unchanged)
+                ok = all(np.array_equal(ref.site(rgb[..., ch], cfa, c_), ref.site(m0, cfa, c_)) for c_, ch in (('r', 0), ('g1', 1), ('g2', 1), ('b', 2)))
+                ctx.require('forms.bayer', ok, key + '/demosaic_malvar', 'demosaic_malvar changes raw samples at their native sites', desc)
+                mm = m.copy()
+                bayer.wb_prescale(mm, *g, **kw)
+                wantw = m0.copy()
+                for c_, gg in zip(('r', 'g1', 'g2', 'b'), g):
+                    r0, c0 = ref.SITES[cfa][c_]
+                    wantw[r0::2, c0::2] *= gg
+                ctx.close('forms.bayer', mm, wantw, key + '/wb_prescale', 'wb_prescale does not apply each gain at its native site', desc, rtol=1e-14)
+                if which == 'cfa-omitted':
+                    pl = bayer.decomposite_bayer(m)
+                    ok = all(np.array_equal(a_, b_) for a_, b_ in zip(pl, planes))
+                    ctx.require('forms.bayer', ok, key + '/decomposite_bayer', 'decomposite_bayer with cfa omitted is not the rggb decomposition', desc)
+                    di = bayer.demosaic_deinterlace(m)
+                    ok = np.array_equal(di[..., 0], planes[0]) and np.array_equal(di[..., 2], planes[3])
+                    ctx.require('forms.bayer', ok, key + '/demosaic_deinterlace', 'demosaic_deinterlace with cfa omitted is not the rggb result', desc)
+            elif which == 'call':
+                pl = bayer.decomposite_bayer(img=m, cfa=cfa)
+                ok = all(np.array_equal(a_, b_) for a_, b_ in zip(pl, planes))
+                ctx.require('forms.bayer', ok, key + '/decomposite_bayer', 'decomposite_bayer by keyword is not the native-site decomposition', desc)
+                back = bayer.recomposite_bayer(planes[0], planes[1], planes[2], planes[3], cfa)
+                back2 = bayer.recomposite_bayer(b=planes[3], g2=planes[2], g1=planes[1], r=planes[0], cfa=cfa, output=None)
+                ctx.equal('forms.bayer', back, m0, key + '/recomposite_bayer', 'recomposite_bayer (positional cfa) != mosaic', desc)
+                ctx.equal('forms.bayer', back2, m0, key + '/recomposite_bayer', 'recomposite_bayer (all keywords) != mosaic', desc)
+                r1 = bayer.demosaic_malvar(img=m, cfa=cfa)
+                r2 = bayer.demosaic_malvar(m, cfa)
+                ctx.equal('forms.bayer', r1, r2, key + '/demosaic_malvar', 'demosaic_malvar keyword form != positional form', desc)
+                d1 = bayer.demosaic_deinterlace(img=m, cfa=cfa)
+                d2 = bayer.demosaic_deinterlace(m, cfa)
+                ctx.equal('forms.bayer', d1, d2, key + '/demosaic_deinterlace', 'demosaic_deinterlace keyword form != positional form', desc)
+                ma, mb = m.copy(), m.copy()
+                bayer.wb_prescale(ma, g[0], g[1], g[2], g[3], cfa, False, None)
+                bayer.wb_prescale(mosaic=mb, wb=g[3], wg2=g[2], wg1=g[1], wr=g[0], cfa=cfa)
+                ctx.equal('forms.bayer', ma, mb, key + '/wb_prescale', 'wb_prescale positional form != keyword form', desc)
+            elif which == 'gains':
+                # white-balance gains as python int / numpy scalars: the same numbers
+                gi = [float(int(rng.integers(1, 4))) for _ in range(4)]
+                form = ['int', 'np.float64', 'np.int64', 'np.float32'][(it // 10) % 4]
+                conv = {'int': int, 'np.float64': np.float64, 'np.int64': np.int64, 'np.float32': np.float32}[form]
+                ma, mb = m.copy(), m.copy()
+                bayer.wb_prescale(ma, *gi, cfa=cfa)
+                bayer.wb_prescale(mb, *[conv(v) for v in gi], cfa=cfa)
+                ctx.close('forms.bayer', mb, ma, key + '/wb_prescale', f'wb_prescale with gains given as {form} differs from python floats', desc, rtol=1e-14)
+                ra = np.stack([m, m * 0.5, m * 2], axis=-1)
+                rb = ra.copy()
+                bayer.wb_postscale(ra, *gi[:3])
+                bayer.wb_postscale(rb, *[conv(v) for v in gi[:3]])
+                ctx.close('forms.bayer', rb, ra, key + '/wb_postscale', f'wb_postscale with gains given as {form} differs from python floats', desc, rtol=1e-14)
+            else:
+                # saturation level: scalar (python / numpy) or per-channel sequence (list / tuple / ndarray)
+                sat = float(rng.uniform(0.2, 0.9) * m.max())
+                form = ['np.float64', 'int', 'list', 'tuple', 'ndarray'][(it // 10) % 5]
+                if form == 'int':
+                    sat = float(int(sat) + 1)
+                sarg4 = {'np.float64': np.float64(sat), 'int': int(sat), 'list': [sat] * 4, 'tuple': (sat,) * 4, 'ndarray': np.full(4, sat)}[form]
+                sarg3 = {'np.float64': np.float64(sat), 'int': int(sat), 'list': [sat] * 3, 'tuple': (sat,) * 3, 'ndarray': np.full(3, sat)}[form]
+                ma, mb = m.copy(), m.copy()
+                bayer.wb_prescale(ma, *g, cfa=cfa, safe=True, saturation=sat)
+                bayer.wb_prescale(mb, *g, cfa=cfa, safe=True, saturation=sarg4)
+                ctx.close('forms.bayer', mb, ma, key + '/wb_prescale', f'safe wb_prescale with the saturation given as {form} differs from a python float',
+                          desc, rtol=1e-14)
+                ra = np.stack([m, m * 0.5, m * 2], axis=-1)
+                rb = ra.copy()
+                bayer.wb_postscale(ra, *g[:3], safe=True, saturation=sat)
+                bayer.wb_postscale(rb, *g[:3], safe=True, saturation=sarg3)
+                ctx.close('forms.bayer', rb, ra, key + '/wb_postscale', f'safe wb_postscale with the saturation given as {form} differs from a python float',
+                          desc, rtol=1e-14)
+            ctx.require('bayer.input-untouched', np.array_equal(m, m0), f'C16/bayer/{cfa}/input-mutated', 'a Bayer routine modified the mosaic it was given', desc)
+
+
+def foreign_traffic(ctx):
+    """Class F prelude: other public consumers of what the sensor routines share (the module-level colour-site slices of
+    prysm.bayer through assemble_superresolved, apply_lut, the analytic pixel / OLPF transfer functions, the random generator
+    behind the mathops shim, config.precision) with non-default arguments.  Nothing is judged; a failure is only counted."""
+    from prysm import bayer, detector
+    rng = np.random.default_rng([ctx.seed, 16800, ctx.shard])
+    with quiet():
+        for prec in (32, 64):
+            with precision(prec):
+                try:
+                    m = rng.uniform(1, 9, (6, 8)).astype(np.float32 if prec == 32 else float)
+                    pl = bayer.decomposite_bayer(m, 'rggb')
+                    bayer.assemble_superresolved(*pl, zoomfactor=2, cfa='rggb')
+                    detector.apply_lut(rng.integers(0, 16, (3, 4)).astype(np.uint8), np.arange(16, dtype=np.uint16)[::-1])
+                    fx = np.linspace(-1, 1, 8)
+                    detector.pixel_ft(fx, fx[:, None], 2.0, 3.0)
+                    detector.olpf_ft(fx, fx[:, None], 1.0, 0.5)
+                    detector.Detector(5.0, 3.0, 100, 1e4, 0.5, 12, 0.1, prnu=np.full((3, 4), 0.9), dcnu=np.full((3, 4), 1.1)).expose(
+                        rng.uniform(0, 1e5, (3, 4)), 3)
+                    detector.tile(detector.bindown(m, (3, 2), 'sum'), (3, 2), 'avg')
+                    ctx.event('foreign-traffic prelude completed')
+                except Exception as e:  # noqa
+                    ctx.event(f'foreign-traffic prelude: {type(e).__name__} (not judged)')
+
+
+def forms_workload(ctx):
+    foreign_traffic(ctx)
+    forms_expose(ctx)
+    forms_bin(ctx)
+    forms_bayer(ctx)
+    ctx.note('forms', 'class E: Detector construction / expose / bindown / tile / Bayer argument forms (tables SCALAR_FORMS, BITS_FORMS, FRAME_FORMS, '
+             'PRNU_FORMS, DCNU_FORMS, FACTOR_FORMS, BIN_MODES, TILE_SCALINGS, CFA_ANYCASE), one argument at a time off its canonical form')
+
+
 def run(ctx):
     global CTX
     CTX = ctx
@@ -1203,6 +1648,7 @@ def run(ctx):
         bin_workload(ctx)
         expose_bin_workload(ctx)
         bayer_workload(ctx)
+        forms_workload(ctx)
     finally:
         mathops.np._srcmodule = real
         config.precision = old
